@@ -199,6 +199,46 @@ def h13c(c):
             c.ob("stream-carries-its-strategy-filter", norm(st.listener_kwargs) == norm(k), got=str(st.listener_kwargs), want=str(k))
 
 
+def h13f(c):
+    """stream sharing in live / paper mode: two strategies share a market stream (connection, conflation, snap interval) only when stream
+    class, market filter, data filter, streaming timeout and conflation are all the same; otherwise what one strategy receives (and when)
+    would depend on who registered first"""
+    with cm.config_set(simulated=False):
+        fl, client, _ = cm.new_live(n_strategies=0)
+        opts = dict(market_filter=[{"marketIds": ["1.1"]}, {"marketIds": ["1.2"]}], market_data_filter=[{"fields": ["EX_BEST_OFFERS"]}, {"fields": ["EX_ALL_OFFERS"]}],
+                    streaming_timeout=[None, 2.0, 5], conflate_ms=[None, 50])
+        cfg = []
+        for nm in ("a", "b"):
+            cfg.append({k: c.choose("%s_%s" % (nm, k), list(range(len(v)))) for k, v in opts.items()})
+        strategies = []
+        for i, cf in enumerate(cfg):
+            st = cm.RecordingStrategy(name="s%d" % i, **{k: opts[k][j] for k, j in cf.items()})
+            with c.guard("add_stream"):
+                fl.streams.add_stream(st)
+            strategies.append(st)
+        sa, sb = strategies[0].streams, strategies[1].streams
+        c.ob("one-stream-each", len(sa) == 1 and len(sb) == 1)
+        if len(sa) == 1 and len(sb) == 1:
+            same = cfg[0] == cfg[1]
+            if same:
+                c.cover("may-share")
+            else:
+                c.ob("different-settings=>separate-streams", sa[0] is not sb[0], a=str(cfg[0]), b=str(cfg[1]))
+                c.cover("separate")
+            for st, cf in zip((sa[0], sb[0]), cfg):
+                c.ob("stream-carries-its-strategy-settings", st.market_filter == opts["market_filter"][cf["market_filter"]] and
+                     st.market_data_filter == opts["market_data_filter"][cf["market_data_filter"]] and st.streaming_timeout == opts["streaming_timeout"][cf["streaming_timeout"]]
+                     and st.conflate_ms == opts["conflate_ms"][cf["conflate_ms"]], settings=str(cf))
+
+
+def h13g(c):
+    """real FlumineSimulation.run() over two market files (C14 world, symbolic publish times and event grouping): whether a strategy's
+    request on one market takes effect does not depend on another market of the run ending or closing while it is in flight"""
+    from .c14 import h14a
+    from .c06 import _Only
+    h14a(_Only(c, ("request-takes-effect", "no-exception", "every-update-delivered")), n_streams=2, lengths=(2, 3), orders=True, closing=True)
+
+
 def h13d(c, U=3):
     """loop level (C07 world, two requests queued together): each request takes effect at its own first due update whatever other
     packages share the simulation's pending queue - a strategy's cancel is not held up by someone else's slower placement"""
@@ -295,6 +335,8 @@ HARNESSES = [
             requires=["worlds", "exception-in-transaction-block"], outside=OUT, selfcheck=False),
     Harness("H13d", h13d, quick=dict(U=3), thorough=dict(U=4), pattern="P3 with symbolic time", requires=["run", "executed"], outside=OUT, selfcheck=False),
     Harness("H13c", h13c, pattern="exhaustive choice product (structural)", requires=["separate", "may-share"], outside=OUT, selfcheck=False),
+    Harness("H13g", h13g, pattern="P1 + P3 (requests in flight across stream ends)", requires=["run", "event-group", "request-executed"], outside=OUT, selfcheck=False),
+    Harness("H13f", h13f, pattern="exhaustive choice product (structural)", requires=["separate", "may-share"], outside=OUT, selfcheck=False),
     Harness("H13b", h13b, quick=dict(U=2), thorough=dict(U=3), pattern="P5 fault schedule as a variable", requires=["injected"], outside=OUT, selfcheck=False),
 ]
 META = {"assumptions": ["simulated_strategy_isolation = True (the default) for H13a"]}
